@@ -241,14 +241,14 @@ CHECKS["C05"] = {
 CHECKS["C18"] = {
     "pkg": "./c18", "run": "^TestC18$", "level": "exploration",
     "mem_gb": {"quick": 0, "thorough": 0},
-    "technique": "runtime monitor: bounded progress of catalogue/membership calls on in-process real servers under join/remove/re-join bursts interleaved with create/delete and a restart replay, with a structural wait-for-cycle detector over goroutine dumps (two dumps 3 s apart) as the deciding criterion on a stall",
-    "level_text": "Real 3-node clusters in one process: under-replicated datasets are created (so the allocator loop itself proposes catalogue changes), then node 3 joins, is removed and re-joins 2-4 times while datasets are created and deleted concurrently from both other nodes, with scheduling noise at the allocator's lock/hand-over points; then a node with existing datasets is restarted (replay burst) and must answer List and apply a marker. A stall is a violation only if the goroutine dumps show one of the control plane's lock-and-channel wait-for cycles persisting across two dumps; any other stall is inconclusive.",
-    "level_note": "Interleavings are sampled; notification bursts of more than 10 pending changes (third cycle of DESIGN 5/C18) are not reached with 3 nodes; wall clock only triggers the dump analysis, the verdict is structural.",
+    "technique": "runtime monitor: bounded progress of catalogue/membership calls on in-process real servers under join/remove/re-join bursts interleaved with create/delete, a restart replay, and membership churn behind a node-change handler that can never finish; a structural wait-for-cycle detector over goroutine dumps (same goroutines parked in the cycle for more than a minute) is the deciding criterion on a stall",
+    "level_text": "Real 3- and 4-node clusters in one process. Family A: under-replicated datasets are created (so the allocator itself proposes catalogue changes), then node 3 joins, is removed and re-joins 2-4 times while datasets are created and deleted concurrently from both other nodes, with scheduling noise at the allocator's lock/hand-over points; then a node with existing datasets is restarted (replay burst) and must answer List and apply a marker. Family B (one case in twelve): a replica that leads a two-replica partition group dies and is removed from the cluster, so the surviving replica's node-change handler waits for a leader that cannot be elected; node 4 then joins and leaves 6-8 times (12-16 notifications, more than the notification channel holds) and a catalogue entry created afterwards must be applied on both live members. A stall is a violation only if the goroutine dumps show one of the control plane's lock-and-channel wait-for cycles with every goroutine of the cycle parked in one uninterrupted wait for more than a minute (longer than every bounded wait of the control plane); any other stall is inconclusive.",
+    "level_note": "Interleavings are sampled, not enumerated; wall clock only triggers the dump analysis, the verdict is structural. Cycles are recognised by frame names of the allocator, catalogue and address-book code; a wedge of a different shape is reported as inconclusive, not as a violation.",
     "shards": {"quick": 6, "thorough": 16},
-    "timeout": {"quick": 900, "thorough": 3400},
-    "rule": "case c = seeded burst (2..4 join/remove cycles of node 3, 10 catalogue operations, 2..4 under-replicated datasets) + restart of node 1 or 2; non-trivial = the scenario ran to the final marker; distinct = digest of the step list",
-    "assumptions": ["a goroutine dump taken in-process shows every server's goroutines; cycles are recognised by frame names"],
-    "min": {"any": {"progress_checks": 10, "restarts_completed": 2}},
+    "timeout": {"quick": 1200, "thorough": 3400},
+    "rule": "case c: c%12==5 -> family B (churn behind a leaderless partition group: 6..8 join/leave cycles of node 4); otherwise family A = seeded burst (2..4 join/remove cycles of node 3, 10 catalogue operations, 2..4 under-replicated datasets) + restart of node 1 or 2; non-trivial = the scenario ran to the final marker; distinct = digest of the step list",
+    "assumptions": ["a goroutine dump taken in-process shows every server's goroutines; cycles are recognised by frame names", "every bounded wait in the control plane is shorter than a minute (proposal timeout 5 s, membership change 10 s)"],
+    "min": {"any": {"progress_checks": 10, "restarts_completed": 2, "leaderless_group_histories": 1}},
 }
 
 CHECKS["C12"] = {
